@@ -33,9 +33,12 @@ EC_RS = "src/analysis/event_consumer.rs"
 
 class Entry:
     def __init__(self, eid, cls, b, sev, stage, need, src, a=None, prefix=None, level="step", conv=None,
-                 why=""):
+                 why="", feats=None, sub=None, strict_stage=False):
         self.id, self.cls, self.b, self.sev, self.stage = eid, cls, b, sev, stage
         self.need, self.src, self.a, self.prefix, self.level, self.conv, self.why = need, src, a, prefix, level, conv, why
+        # feats: feature switches of the base recipe; sub: (lo, hi) characters of `b` that are the offending
+        # part (the key / the value of a metadata line); strict_stage: the diagnostic must have `stage`
+        self.feats, self.sub, self.strict_stage = feats, sub, strict_stage
 
     def configs(self):
         """the (extension set, converter) pairs under which the check must fire: the minimal enabling set,
@@ -204,6 +207,40 @@ CATALOG = [
     E("bad_mode_mb", "bad mode value", ">> [mode]: tëxt", "e", "Analysis", X_MODES, EC_RS + ":363", level="line"),
     E("bad_mode_empty", "bad mode value", ">> [mode]:", "e", "Analysis", X_MODES, EC_RS + ":363", level="line",
       why="the parser warns about the empty value (metadata.rs:34), the analysis rejects it"),
+    # ---- empty metadata key / value of an old-style `>>` line (src/parser/metadata.rs:25-43): the key text
+    # (Text::is_text_empty: blanks only, comments are not text) empty => `block.error`, label = the key
+    # position; else the value text empty => `block.warn`, first label = the value position.  The base recipe
+    # has no front matter (with one, `>>` lines are not metadata any more).
+] + [
+    Entry("meta_key_" + n, "empty metadata key or value", b, "e", "Parse", 0, "src/parser/metadata.rs:27",
+          level="line", feats={"frontmatter": False}, sub=(2, b.index(":", b.rfind("-]") + 1 if "-]" in b else 0) + 1),
+          strict_stage=True, why=w)
+    for n, b, w in [
+        ("none", ">>: zzvalue", "nothing before the colon"),
+        ("blanks", ">>   : zzvalue", "blanks only"),
+        ("tab", ">>\t:zzvalue", "a tab only"),
+        ("comment", ">> [- which key? -]: zzvalue", "a block comment only"),
+        ("comment_tight", ">>[- k -] : zzvalue", "a block comment and a blank"),
+        ("comments", ">> [- a -] [- b -]  : zzvalue", "several comments and blanks"),
+        ("comment_mb", ">> [- clé à définir 名 🥕 -]: zzvalue", "multi-byte text in the comment"),
+        ("comment_no_value", ">>[- k -]:", "key and value both empty: the key error wins"),
+    ]
+] + [
+    Entry("meta_value_" + n, "empty metadata key or value", b, "w", "Parse", 0, "src/parser/metadata.rs:35",
+          level="line", feats={"frontmatter": False}, sub=(b.index(":") + 1, len(b)), strict_stage=True, why=w)
+    for n, b, w in [
+        ("none", ">> zzmood:", "nothing after the colon"),
+        ("blanks", ">> zzmood:   ", "blanks only"),
+        ("tab", ">>zzmood:\t", "a tab only"),
+        ("comment", ">> zzmood: [- ask grandma -]", "a block comment only"),
+        ("line_comment", ">> zzmood: -- ask grandma", "a line comment only"),
+        ("line_comment_tight", ">> zz mood:-- ask", "a line comment right after the colon"),
+        ("comments", ">> zzmood:  [- a -]  [- b -] ", "several comments and blanks"),
+        ("comment_then_line", ">> zzmood: [- a -] -- b", "block comment then line comment"),
+        ("comment_mb", ">> zzmood: [- demandé à mémé 名 🥕 -]", "multi-byte text in the comment"),
+        ("line_comment_mb", ">> zz mööd: -- à voir 名", "multi-byte key and line comment"),
+    ]
+] + [
     # ---- malformed front matter (event_consumer.rs:238-252)
     E("fm_flow_open", "malformed front matter", "title: [1\n", "e", "Analysis", 0, EC_RS + ":243", level="front"),
     E("fm_tab", "malformed front matter", "\ttitle: x\n", "e", "Analysis", 0, EC_RS + ":243", level="front"),
@@ -239,7 +276,8 @@ CATALOG = [
 
 CLASSES = ["empty name", "zero denominator", "empty value", "unit on cookware", "timer without unit or duration",
            "duplicate or forbidden modifier", "bad alias", "dangling or conflicting reference", "note on a reference",
-           "out-of-range intermediate reference", "bad mode value", "malformed front matter", "non-time timer unit"]
+           "out-of-range intermediate reference", "bad mode value", "malformed front matter", "non-time timer unit",
+           "empty metadata key or value"]
 
 BY_ID = {e.id: e for e in CATALOG}
 
@@ -366,7 +404,7 @@ def splice(rng, entry, ext, want=None):
                 "old_style": False}
     feats = None
     if entry.level == "line":
-        text, exp, info, g = gen_base(r, ext)
+        text, exp, info, g = gen_base(r, ext, entry.feats)
         base = strip_marks(text)
         starts = safe_line_starts(base)
         kinds = sorted(set(t for _, t in starts))
@@ -382,8 +420,17 @@ def splice(rng, entry, ext, want=None):
             ins = line + "\n"
             a = blen(base[:pos])
         full = base[:pos] + ins + base[pos:]
-        return {"text": full, "base": base, "a": a, "b": a + blen(line), "tags": ["line", tag],
-                "old_style": info["old_style_meta"]}
+        tags = ["line", tag]
+        lo, hi = entry.sub if entry.sub else (0, len(line))
+        ca = pos + (len(ins) - len(ins.lstrip("\n")) if tag == "end" else 0)
+        if entry.sub and r.random() < 0.25:
+            # the same document with CRLF line ends
+            conv = lambda t: t.replace("\n", "\r\n")
+            a = blen(conv(full[:ca]))
+            full, base = conv(full), conv(base)
+            tags.append("crlf")
+        return {"text": full, "base": base, "a": a + blen(line[:lo]), "b": a + blen(line[:hi]), "tags": tags,
+                "old_style": info["old_style_meta"] or bool(entry.sub)}
     # step level
     text, exp, info, g = gen_base(r, ext)
     n = g.nmarks
